@@ -104,7 +104,7 @@ theorem mem_nodes_foldl_addClique (cls : List (List α)) (E : MG α) (v : α) :
 
 /-! ### `augment` -/
 
-theorem markovPillow_ok (A : MG α) (d : List α) (hd : ∀ x ∈ d, x ∈ A.nodes) :
+theorem sepMarkovPillow_ok (A : MG α) (d : List α) (hd : ∀ x ∈ d, x ∈ A.nodes) :
     A.markovPillow d = .ok (dedup' ((d.flatMap A.parents).filter (· ∉ d))) := by
   have : d.all (· ∈ A.nodes) = true := by simpa using hd
   simp [markovPillow, checkSources, this, bind, Except.bind, pure, Except.pure]
@@ -119,7 +119,7 @@ theorem augment_ok (A : MG α) (hA : A.WF) :
     apply mapM_ok_of_forall
     intro d hd
     have hsub : ∀ x ∈ d, x ∈ A.nodes := fun x hx => (districts_cover A hA x).2 ⟨d, hd, hx⟩
-    simp [districtClosure, markovPillow_ok A d hsub, bind, Except.bind, pure, Except.pure]
+    simp [districtClosure, sepMarkovPillow_ok A d hsub, bind, Except.bind, pure, Except.pure]
   simp [augment, h, bind, Except.bind, pure, Except.pure]
 
 theorem mem_closures (A : MG α) (cl : List α) (w : α) (hcl : cl ∈ closures A) (hw : w ∈ cl) :
